@@ -1523,7 +1523,7 @@ func TestC14(t *testing.T) {
 	if h.f != nil {
 		c14BlockedOwnerProbe(h)
 	}
-	nTraces := r.N(300, 3600)
+	nTraces := r.N(200, 3600)
 	for i := 0; i < nTraces; i++ {
 		g := &c14Gen{h: h, rng: r.Rng.Fork()}
 		g.trace(40 + g.rng.Intn(60))
